@@ -32,6 +32,20 @@ def marker_sites(prog):
                     and isinstance(st.value.func.value.args[1], ast.Constant) and "w" in str(st.value.func.value.args[1].value):
                 path = st.value.func.value.args[0]
                 out.append((m, q, f, st, path))
+    # a wrapper whose body creates the marker named by its parameter: every call of the wrapper is a marker-creating site
+    wrappers = {}
+    for m, q, f, st, path in out:
+        params = [a.arg for a in f.args.args]
+        if isinstance(path, ast.Name) and path.id in params and "." not in q and len([x for x in f.body if not isinstance(x, ast.Expr) or x is st]) <= 2:
+            wrappers[f.name] = params.index(path.id)
+    if wrappers:
+        out = [x for x in out if x[2].name not in wrappers]
+        for m, q, f in prog.all_functions():
+            for st in walk_no_nested(f):
+                if isinstance(st, ast.Expr) and isinstance(st.value, ast.Call) and (call_name(st.value) or "").split(".")[-1] in wrappers:
+                    i = wrappers[(call_name(st.value) or "").split(".")[-1]]
+                    if i < len(st.value.args):
+                        out.append((m, q, f, st, st.value.args[i]))
     return out
 
 
@@ -289,6 +303,27 @@ def deleting_functions(prog):
     return out
 
 
+_DELETE_WRAPPERS = {}
+
+
+def find_delete_wrappers(prog):
+    """module-level functions of dataset_processor that os.remove the file named by one of their parameters: name -> parameter position"""
+    _DELETE_WRAPPERS.clear()
+    for q, f in prog.module(DSP).functions.items():
+        if "." in q:
+            continue
+        params = [a.arg for a in f.args.args]
+        for c in walk_no_nested(f):
+            if isinstance(c, ast.Call) and call_name(c) in ("os.remove", "os.unlink") and c.args and isinstance(c.args[0], ast.Name) \
+                    and c.args[0].id in params and len(f.body) <= 6:
+                _DELETE_WRAPPERS[f.name] = params.index(c.args[0].id)
+    return _DELETE_WRAPPERS
+
+
+def enclosing_stmt_or_none(st, c):
+    return st
+
+
 def invalidates(st, kinds):
     """Marker kinds invalidated by a statement: clean_locks(.., .., helper) or os.remove(<marker expr>)."""
     out = set()
@@ -297,14 +332,18 @@ def invalidates(st, kinds):
             for a in list(c.args) + [k.value for k in c.keywords]:       # the marker-name function, whatever its position
                 if src(a) in kinds or (isinstance(a, ast.Name) and a.id.endswith("lock_file_name")):
                     out.add(src(a))
-        if isinstance(c, ast.Call) and call_name(c) == "os.remove":
-            t = src(c.args[0])
-            if isinstance(c.args[0], ast.Name):
+        wrapped = isinstance(c, ast.Call) and (call_name(c) or "").split(".")[-1] in _DELETE_WRAPPERS \
+            and len(c.args) > _DELETE_WRAPPERS[(call_name(c) or "").split(".")[-1]]
+        if (isinstance(c, ast.Call) and call_name(c) == "os.remove") or wrapped:
+            # (remove_marker(path) = a function that does os.remove(<its parameter>))
+            arg = c.args[_DELETE_WRAPPERS[(call_name(c) or "").split(".")[-1]]] if wrapped else c.args[0]
+            t = src(arg)
+            if isinstance(arg, ast.Name):
                 for a_ in ast.walk(st):                       # the removed name is a local computed in the same statement (inlined helper)
-                    if isinstance(a_, ast.Assign) and any(isinstance(t_, ast.Name) and t_.id == c.args[0].id for t_ in a_.targets):
+                    if isinstance(a_, ast.Assign) and any(isinstance(t_, ast.Name) and t_.id == arg.id for t_ in a_.targets):
                         t += " " + src(a_.value)
                 for l in flow.enclosing_loops(c):
-                    if isinstance(l, ast.For) and src(l.target) == c.args[0].id and isinstance(l.iter, (ast.List, ast.Tuple)):
+                    if isinstance(l, ast.For) and src(l.target) == arg.id and isinstance(l.iter, (ast.List, ast.Tuple)):
                         t = " ".join(src(e) for e in l.iter.elts)
             for k in kinds:
                 if k.startswith("suffix:") and k[7:] in t:
@@ -315,6 +354,7 @@ def invalidates(st, kinds):
 
 
 def r2(prog, ctx, markers, kinds):
+    find_delete_wrappers(prog)
     for need_kind in ("reads_processed_lock_file_name", "reads_collected_lock_file_name", "suffix:_lock"):
         if need_kind not in kinds:
             raise AnalysisError("R2: marker kind %s is not among the kinds derived from the marker-creating sites %s (the marker-name "
@@ -370,8 +410,10 @@ def r2(prog, ctx, markers, kinds):
     got = set()
     for s in before:
         got |= invalidates(s, kinds)
-    need = {"reads_collected_lock_file_name", "suffix:_lock"}
+    need = {"reads_collected_lock_file_name", "suffix:_lock"} & set(kinds)        # (of the marker kinds that exist on this tree)
     rg = {k for k in kinds if "read_group" in k}
+    if not (need | rg):
+        ctx.undecided("R2", first, g._qualname, "none of the marker kinds the clean-up has to remove first is among %s" % sorted(kinds))
     missing = sorted(k for k in need | rg if k not in got and not any(k in src(s) for s in before))
     if missing:
         ctx.fail("R2", first, g._qualname, src(first)[:80], "intermediate files are deleted while the markers %s that vouch for them "
@@ -547,8 +589,13 @@ def r5(prog, ctx):
                         d = dotted(t)
                         if d:
                             restored_here.add(".".join(d.split(".")[:3] if d.startswith("self.args.") else d.split(".")[:2]))
+            from . import c10 as _c10
+            const_derived = _c10.constant_derived_locations(prog)
             for loc in sorted(written):
                 if loc not in later_reads:
+                    continue
+                if loc in const_derived:
+                    ctx.ok("R5", "%s:%d" % (DSP, r.lineno), "%s: %s is a memo of run-constant data (recomputed identically when needed)" % (q, loc))
                     continue
                 if loc in restored_here or loc in restored_after:
                     ctx.ok("R5", "%s:%d" % (DSP, r.lineno), "%s: %s (filled by the skipped stage, read later) is restored %s"
